@@ -331,8 +331,19 @@ def check(case, rec):
     elif op == "fill_in_steps":
         # a tensor without declared shape filled in place, looked at while partly filled and again later
         pts = sorted(model.content(spec).items())
-        t2 = Tensor(rank_ids=list(ids), default=default)
         half = len(pts) // 2
+        if sel[1] % 2 and half > 0:
+            # the first half arrives as a fiber handed to fromFiber (no shape given: the ranks remember an
+            # estimate made now), the rest is inserted later and may lie beyond that estimate
+            first = model.tree_from_content(dict(pts[:half]), d)
+            t2 = Tensor.fromFiber(list(ids), build.nested_fiber(first, d, None, default), default=default)
+            t2.setMutable(True)
+            coords_in_shape(t2, "tensor built by fromFiber without a shape")
+            pts = pts[half:]
+            half = len(pts) // 2
+            rec.cls("grown-beyond-constructor-estimate")
+        else:
+            t2 = Tensor(rank_ids=list(ids), default=default)
         for stage, chunk in (("half-filled", pts[:half]), ("filled", pts[half:])):
             for p_, v_ in chunk:
                 t2.getPayloadRef(*p_).__ilshift__(v_)
@@ -611,7 +622,22 @@ def _pin_tuple_active():
     return None if a == [(0, 0, 0)] else f"iterActive yields {a}"
 
 
-PINNED = {"P6a-swap-shape-estimated": _pin_swap_shape,
+def _pin_p40():
+    t = Tensor.fromFiber(["M", "K"], Fiber([0], [Fiber([0], [1])]))          # no shape given
+    t.setMutable(True)
+    t.getPayloadRef(1, 0).__ilshift__(1)                                      # beyond the estimate made at construction
+    if t.getShape()[0] < 2 or not (t.getRoot().getActive()[0] <= 1 < t.getRoot().getActive()[1]):
+        return (f"fromFiber without a shape, then an insertion at M=1: shape {t.getShape()}, root active range "
+                f"{t.getRoot().getActive()} do not cover the stored coordinate 1")
+    try:
+        t.swizzleRanks(["K", "M"])
+    except ValueError as e:
+        return f"swizzleRanks of that tensor raises ValueError: {e}"
+    return None
+
+
+PINNED = {"P40-estimate-made-at-construction-goes-stale": _pin_p40,
+          "P6a-swap-shape-estimated": _pin_swap_shape,
           "P17-merge-absolute-active-range": _pin_p17,
           "P18b-unflatten-top-rank-tuple-shape": _pin_unflatten_shape,
           "P6c-unflatten-drops-default": _pin_unflatten_default,
